@@ -250,7 +250,11 @@ func genSimpleAlert(c *Ctx, p string, rich bool) *gtfsrt.Alert {
 		e.StopId = optStr(c, q+"stop", rich, fmt.Sprintf("AS%d", i), "")
 		e.DirectionId = optU32(c, q+"direction", rich, uint32(i%2), uint32(1-i%2))
 		// a selector may name a trip: one mentioned nowhere else (by id, or by route+direction+start) or a pool trip
-		switch c.Choose(q+"trip", 5) {
+		switch c.Choose(q+"trip", 6) {
+		case 5:
+			// a descriptor that names a route only (plus a direction): the alert then also informs that route -
+			// one entity per such route, after the entities of the selectors, in no stated order
+			e.Trip = &gtfsrt.TripDescriptor{RouteId: sp(fmt.Sprintf("FB%d", 9-i)), DirectionId: u32p(uint32(i % 2))}
 		case 1:
 			e.Trip = &gtfsrt.TripDescriptor{TripId: sp(fmt.Sprintf("alert-only-trip-%d", i)), RouteId: sp(fmt.Sprintf("AR%d", i))}
 		case 2:
@@ -276,6 +280,23 @@ func genSimpleAlert(c *Ctx, p string, rich bool) *gtfsrt.Alert {
 	a.HeaderText = genTranslated(c, p+"header.", true, "Header, with \"quotes\"")
 	a.DescriptionText = genTranslated(c, p+"description.", rich, "Description\nsecond line")
 	return a
+}
+
+// c02MergeFallback: the entities an alert gets for routes that its selectors name only through a
+// trip descriptor come after the entities of the selectors, in no stated order: they are appended to
+// the reference in sorted order, and the corresponding tail of the result is sorted the same way.
+func c02MergeFallback(want *refResult, got *gtfs.Realtime) {
+	less := func(a, b gtfs.AlertInformedEntity) bool { return dumpInformed(a) < dumpInformed(b) }
+	for i := range want.rt.Alerts {
+		k := len(want.rt.Alerts[i].InformedEntities)
+		fb := append([]gtfs.AlertInformedEntity{}, want.fallback[i]...)
+		sort.Slice(fb, func(x, y int) bool { return less(fb[x], fb[y]) })
+		want.rt.Alerts[i].InformedEntities = append(want.rt.Alerts[i].InformedEntities, fb...)
+		if i < len(got.Alerts) && len(got.Alerts[i].InformedEntities) > k {
+			tail := got.Alerts[i].InformedEntities[k:]
+			sort.Slice(tail, func(x, y int) bool { return less(tail[x], tail[y]) })
+		}
+	}
 }
 
 func cloneTD(d *gtfsrt.TripDescriptor) *gtfsrt.TripDescriptor {
@@ -433,7 +454,7 @@ func c02Harness(rich bool) Harness {
 			c.Fail("input-mutated", "ParseRealtime modified its input buffer")
 		}
 		want := refParse(g.msg, g.tz.loc)
-		// fall-back routes are appended after the per-selector entities; none arise here (no trip descriptors in selectors)
+		c02MergeFallback(want, r)
 		o := rtDumpOpts{sortVehicles: true, sortTrips: true}
 		wd, gd := dumpRealtime(want.rt, o), dumpRealtime(r, o)
 		c.Outcome(gd)
@@ -458,6 +479,7 @@ func c02Harness(rich bool) Harness {
 			return
 		}
 		want2 := refParse(g.msg, tz2.loc)
+		c02MergeFallback(want2, r2)
 		if wd2, gd2 := dumpRealtime(want2.rt, o), dumpRealtime(r2, o); wd2 != gd2 {
 			c.Fail("transcription-after-another-zone:"+firstDiffKind(wd2, gd2), "the same message parsed again with timezone=%s (after timezone=%s) differs from the wire content\n%s", tz2.name, g.tz.name, diffLines(wd2, gd2))
 		}
